@@ -9,7 +9,7 @@
 use crate::*;
 use tower_resilience_healthcheck::{HealthCheckWrapper, HealthStatus, SelectionStrategy};
 
-pub fn run(wseed: u64) {
+pub fn run(wseed: u64, rt: &tokio::runtime::Runtime) {
     let mut rng = Rng::new(wseed);
     let nres = 2 + rng.below(3) as usize;
     // one resource may be unhealthy (never eligible)
@@ -19,7 +19,6 @@ pub fn run(wseed: u64) {
     let usable = rng.chance(1, 2);
     println!("MSIM scenario=roundrobin wseed={} resources={} bad={:?} threads={} per_thread={} get_usable={}", wseed, nres, bad, threads, per, usable);
 
-    let rt = paused_runtime();
     let checker = move |r: &u32| {
         let r = *r as usize;
         async move {
@@ -73,6 +72,7 @@ pub fn run(wseed: u64) {
                     None => violation("C18.selection_hang [os_threads]", "a selection never returned".into()),
                     Some(None) => violation("C18.selection_eligible [os_threads]", "nothing selected though resources are healthy".into()),
                     Some(Some(r)) => {
+                        note(8, r as usize);
                         counts[r as usize].fetch_add(1, SeqCst);
                     }
                 }
